@@ -182,15 +182,25 @@ static char *concat(char *head, const char *tail) {
     return strcat(result, tail);
 }
 
+/* The file is shared by the test's own process and the reporting process, which each
+   have their own 'output', so only ever add what is new at the end of the file, and
+   make sure it is there even if the process is killed later */
+static void append_to_child_output(size_t already_written) {
+    fseek(child_output_tmpfile, 0, SEEK_END);
+    fputs(output + already_written, child_output_tmpfile);
+    fflush(child_output_tmpfile);
+}
+
 static void xml_show_skip(TestReporter *reporter, const char *file, int line) {
     (void)file;
     (void)line;
 
+    size_t already_written = strlen(output);
+
     output = concat(output, indent(reporter));
     output = concat(output, "\t<skipped />\n");
 
-    fseek(child_output_tmpfile,0,SEEK_SET);
-    fputs(output, child_output_tmpfile);
+    append_to_child_output(already_written);
 }
 
 static void xml_concat_escaped_message(const char *message, va_list arguments) {
@@ -226,6 +236,7 @@ static void xml_concat_escaped_message(const char *message, va_list arguments) {
 
 static void xml_show_fail(TestReporter *reporter, const char *file, int line, const char *message, va_list arguments) {
     char buffer[1000];
+    size_t already_written = strlen(output);
 
     output = concat(output, indent(reporter));
     output = concat(output, "<failure message=\"");
@@ -240,12 +251,12 @@ static void xml_show_fail(TestReporter *reporter, const char *file, int line, co
     output = concat(output, indent(reporter));
     output = concat(output, "</failure>\n");
 
-    fseek(child_output_tmpfile,0,SEEK_SET);
-    fputs(output, child_output_tmpfile);
+    append_to_child_output(already_written);
 }
 
 static void xml_show_incomplete(TestReporter *reporter, const char *filename, int line, const char *message, va_list arguments) {
     char buffer[1000];
+    size_t already_written = strlen(output);
 
     output = concat(output, indent(reporter));
     output = concat(output, "<error type=\"Fatal\" message=\"");
@@ -259,8 +270,7 @@ static void xml_show_incomplete(TestReporter *reporter, const char *filename, in
     output = concat(output, indent(reporter));
     output = concat(output, "</error>\n");
 
-    fseek(child_output_tmpfile,0,SEEK_SET);
-    fputs(output, child_output_tmpfile);
+    append_to_child_output(already_written);
 }
 
 
